@@ -162,6 +162,9 @@ def run(ctx):
                      % (fr.get("evaluations", 0), len(fr.get("violations", [])), len(fr.get("info", {}).get("rows_move_never_applied", []))))
     # ---- M1 at gadget level: operand classes on which an alternative would pass a weakened width check ------
     ctx.absorb(ctx.run_driver("c05", {"part": "gadget", "instance": "testdata"}, tag="gadget"), "c05")
+    # ---- M1 on the gate evaluators with parameters the shipped circuits do not have: honest fit and the field-wrap alternative ----------
+    for sh in range(4 if ctx.tier == "thorough" else 1):
+        ctx.absorb(ctx.run_driver("c05", {"part": "gates", "instance": "testdata", "shard": ctx.seed * 10 + sh}, tag="gates-%d" % sh), "c05")
     # ---- M1 injection -------------------------------------------------------------------------------------
     rnd = random.Random(ctx.seed * 31 + 5)
     per_inst = {i: [] for i in insts}
